@@ -238,6 +238,11 @@ REQUIRED_THEOREMS["C03"] = ["C03_acyclic", "C03_forest_reading", "C03_step_delet
 REQUIRED_THEOREMS["C04"] += ["C04_import_inv", "C04_import_inv_table", "C04_import_ids", "C04_import_needs_forward",
                              "C04_import_needs_binary"]   # R6I: an imported solution satisfies Inv
 REQUIRED_THEOREMS["C03"] += ["C03_reach_imported", "C03_reach_imported_table"]
+# R7T: the TracksController entry points as compositions of user actions
+REQUIRED_THEOREMS["C03"] += ["C03_controller_expand", "C03_controller_reach", "C03_controller_is_valid_sound"]
+REQUIRED_THEOREMS["C02"] += ["C02_controller_steps"]
+REQUIRED_THEOREMS["C11"] += ["C11_controller_update_attrs_refused", "C11_controller_update_attrs_counterexample_unfixed",
+                             "C11_controller_update_attrs_protected"]
 REQUIRED_THEOREMS["C04"] += ["C04_step_addEdge", "C04_frame_addEdge", "C04_step_swap", "C04_frame_swap",
                              "C04_valid_uDeleteEdge", "C04_valid_uAddEdge", "C04_valid_uSwap"]
 REQUIRED_THEOREMS["C05"] += ["C05_frame_swap"]
